@@ -908,6 +908,8 @@ func run(c *vh.Ctx, cs Case) {
 		runBuild(c, cs)
 	case "inner":
 		runInner(c, cs)
+	case "sibling":
+		runSibling(c, cs)
 	case "points":
 		data, _ := hex.DecodeString(cs.Data)
 		runPoints(c, cs, data, nil)
@@ -1278,7 +1280,8 @@ func corpus() []Case {
 
 func main() {
 	c := vh.Start("C08")
-	c.Rep.Rule = "points valid / invalid BY CONSTRUCTION (s*B; the 8 small-order points in every parsed encoding, s*B+T for each torsion point T, y>=p, off-curve y; built with filippo.io/edwards25519, not the repository) in every point slot: announcement, commitment, full challenge commitment and challenge, pre-commitments first/middle/last; " +
+	c.Rep.Rule = "stateful sibling sequences for the decoded-point cache (sibling parsed cold, valid point P parsed, sibling parsed again; siblings share a prefix of 8..31 bytes, a suffix, or all but one byte / bit with P, status decided by decoding, canonical re-encoding and multiplication by the group order), in every point slot; " +
+		"points valid / invalid BY CONSTRUCTION (s*B; the 8 small-order points in every parsed encoding, s*B+T for each torsion point T, y>=p, off-curve y; built with filippo.io/edwards25519, not the repository) in every point slot: announcement, commitment, full challenge commitment and challenge, pre-commitments first/middle/last; " +
 		"corpus of builder limits (0/255/256 transactions, 0/1/1024/1025 commitments, invalid point at each position); " +
 		"inner transaction / snapshot encodings assembled at byte level with complete members and counts at limit-1, limit, limit+1 and the next constant " +
 		"(inputs, outputs, keys, references, signature maps, signatures, signers, extra, amount, input index; snapshot transactions / references), inside every carrying message type; " +
@@ -1305,6 +1308,10 @@ func main() {
 		run(c, cs)
 	}
 	for _, cs := range innerCases(c.Tier == "thorough") {
+		run(c, cs)
+	}
+	// stateful: a valid point is decoded, then near siblings of it that are known to be invalid
+	for _, cs := range siblingCases(c.Rng.Fork("siblings"), c.Scale(12, 24)) {
 		run(c, cs)
 	}
 	n := c.Scale(6000, 200000)
